@@ -106,6 +106,7 @@ type Slots struct {
 
 func (c *ClusterNodes) loopClusterNodes() {
 	for {
+		verifRefreshIdle()
 		select {
 		case msg := <-EngineGlobal.clusterChan:
 			if len(msg) < 3 {
